@@ -1172,6 +1172,10 @@ func (m *membershipAllower) membershipAllowedSelfForRestrictedJoin() error {
 // membershipAllowedFronThirdPartyInvite determines if the member events is following
 // up the third_party_invite event it claims.
 func (m *membershipAllower) membershipAllowedFromThirdPartyInvite() error {
+	// If the target user is banned, reject.
+	if m.oldMember.Membership == spec.Ban {
+		return m.membershipFailed("target is banned")
+	}
 	// Check if the event's target matches with the Matrix ID provided by the
 	// identity server.
 	if m.targetID != m.newMember.ThirdPartyInvite.Signed.MXID {
